@@ -202,7 +202,7 @@ def c11_3(rep, ix):
     # the loop that evaluates the modes: a for loop whose body calls _expression on the loop element and stores into the mode list
     loops = [n for n in walk_shallow(fn) if isinstance(n, ast.For) and "_expression(" in u(n) and "modes" in u(n.iter)]
     if len(loops) != 1:
-        raise Inconclusive("exitStatement: mode evaluation loop not recognised (%d candidates)" % len(loops))
+        return c11_3_separate(rep, ix, f, R)
     loop = loops[0]
     evald = None
     for s in loop.body:
@@ -234,6 +234,37 @@ def c11_3(rep, ix):
     upd = [n for n in walk_shallow(fn) if isinstance(n, ast.AugAssign) and isinstance(n.op, ast.BitOr) and u(n.target).endswith("_modes")]
     rep.check(len(upd) == 1 and u(upd[0].value) in ("set(modes)", "set(%s)" % u(loop.iter)) and upd[0].lineno > loop.lineno, R, ix.site(f, upd[0]) if upd else ix.site(f),
               "the program's mode set is updated, after the check, by union with the checked mode list", key="modes union")
+
+
+def c11_3_separate(rep, ix, f, R):
+    """modes evaluated first (comprehension) and checked in a separate loop / all(): the check must cover every element of the mode list"""
+    fn = f.node
+    ev = [n for n in walk_shallow(fn) if isinstance(n, ast.Assign) and isinstance(n.targets[0], ast.Name) and isinstance(n.value, ast.ListComp) and "_expression(" in u(n.value.elt)]
+    if len(ev) != 1:
+        raise Inconclusive("exitStatement: mode evaluation not recognised")
+    mlist = ev[0].targets[0].id
+    checks = []
+    for n in walk_shallow(fn):
+        if isinstance(n, ast.For) and n.lineno > ev[0].lineno and any(isinstance(x, ast.Raise) for x in ast.walk(n)) and "isinstance" in u(n):
+            checks.append(n)
+    if not checks:
+        rep.bad(R, ix.site(f, ev[0]), "every evaluated mode passes an integer check that raises otherwise", "no check loop after `%s`" % " ".join(u(ev[0]).split())[:60], key="mode|nocheck")
+        return
+    c = checks[0]
+    it = " ".join(u(c.iter).split())
+    full = it in (mlist, "enumerate(%s)" % mlist, "list(%s)" % mlist, "iter(%s)" % mlist)
+    rep.check(full, R, ix.site(f, c), "the integer check iterates over every mode of the statement", "it iterates `%s`: modes outside that collection are stored unchecked" % it, key="mode|coverage")
+    var = u(c.target.elts[-1]) if isinstance(c.target, ast.Tuple) else u(c.target)
+    for name, k in sorted(KINDS.items()):
+        def atom(node, k=k):
+            if isinstance(node, ast.Name) and node.id == var:
+                return k
+            return AEval.NO
+        falls = Reach(fn, c.body[-1]).falls_through(c.body, atom)
+        want = name in INTEGRAL
+        rep.check(falls == want, R, ix.site(f, c), "a mode value of kind %s is %s" % (name, "accepted" if want else "refused (the check raises)"), key="mode|" + name)
+    upd = [n for n in walk_shallow(fn) if isinstance(n, ast.AugAssign) and isinstance(n.op, ast.BitOr) and u(n.target).endswith("_modes")]
+    rep.check(len(upd) == 1 and upd[0].lineno > c.lineno, R, ix.site(f, upd[0]) if upd else ix.site(f), "the program's mode set is updated only after the check", key="modes union")
 
 
 # ------------------------------------------------------------------------------------ C11.4 complex -> int/float
